@@ -810,3 +810,32 @@ mod test {
         );
     }
 }
+
+#[cfg(adf_obdd_verif)]
+impl NoGood {
+    /// Read-only export of the active and value positions (verification hook, only built with `--cfg adf_obdd_verif`).
+    pub fn verif_parts(&self) -> (Vec<u32>, Vec<u32>) {
+        (self.active.iter().collect(), self.value.iter().collect())
+    }
+}
+
+#[cfg(adf_obdd_verif)]
+impl NoGoodStore {
+    /// Read-only export of the buckets (verification hook).
+    pub fn verif_dump(&self) -> Vec<Vec<(Vec<u32>, Vec<u32>)>> {
+        self.store
+            .iter()
+            .map(|bucket| bucket.iter().map(|ng| ng.verif_parts()).collect())
+            .collect()
+    }
+
+    /// Public wrapper of the crate-private `conclusion_closure` (verification hook).
+    /// Returns `("inconsistent" | "noupdate" | "update", interpretation)`.
+    pub fn verif_closure(&self, interpretation: &[Term]) -> (&'static str, Vec<Term>) {
+        match self.conclusion_closure(interpretation) {
+            ClosureResult::Update(v) => ("update", v),
+            ClosureResult::NoUpdate => ("noupdate", interpretation.to_vec()),
+            ClosureResult::Inconsistent => ("inconsistent", interpretation.to_vec()),
+        }
+    }
+}
